@@ -22,7 +22,8 @@ tvars == <<vars, tr, l, T, B, claimed>>
 
 Plan == Traces[tr].plan
 \* TRUE if the clause holds, or if it fails in the shape of a known finding that is switched on (and says so)
-Known(name, holds) == holds \/ (KFOn(name) /\ PrintT("KF " \o Plan \o " " \o name))
+\* (IF, not \/: inside an action TLC explores both branches of a disjunction)
+Known(name, holds) == IF holds THEN TRUE ELSE (KFOn(name) /\ PrintT("KF " \o Plan \o " " \o name))
 
 TaskRec(x) == [id |-> x.id, name |-> (IF Len(x.names) >= 1 THEN x.names[1] ELSE AllStar), nnames |-> Len(x.names), excl |-> ToSet(x.excl), ur |-> x.ur,
                tgt |-> x.tgt, sel |-> ToSet(x.sel), sel2 |-> ToSet(x.sel2)]
